@@ -49,7 +49,8 @@ REQUIRED_COUNTERS = ['specs_parsed', 'simulations_compared',
                      'registry_keys_checked', 'round_trips',
                      'expand_calls_checked', 'runs_form_specs',
                      'list_of_ranges_specs',
-                     'expansions_after_reregistration']
+                     'expansions_after_reregistration',
+                     'splitting_simulations_expanded']
 
 CODE_POOL = {
     'Toric2DCode': [(2, 2), (3, 3), (2, 3), (3, 4), (4, 4)],
@@ -82,8 +83,44 @@ DECODERS_FOR = {
 }
 
 
+USER_DECODERS = {
+    'PvForwardingDecoder': [{}, {'osd_order': 0}, {'max_bp_iter': 7},
+                            {'osd_order': 2, 'max_bp_iter': 11}],
+    'PvExtraOptionDecoder': [{}, {'my_opt': 3}, {'osd_order': 0, 'my_opt': 1},
+                             {'max_bp_iter': 5}],
+}
+DECODERS_FOR.update(USER_DECODERS)
+
+
+def ensure_user_decoders():
+    """Decoder classes a user registers (register_decoder): subclasses of a
+    library decoder whose constructors forward options through **kwargs."""
+    from panqec import config
+    from panqec.decoders import BeliefPropagationOSDDecoder
+    if 'PvForwardingDecoder' in config.DECODERS:
+        return
+
+    class PvForwardingDecoder(BeliefPropagationOSDDecoder):
+        def __init__(self, *args, **kwargs):
+            super().__init__(*args, **kwargs)
+
+    class PvExtraOptionDecoder(BeliefPropagationOSDDecoder):
+        def __init__(self, code, error_model, error_rate, my_opt=None,
+                     **kwargs):
+            super().__init__(code, error_model, error_rate, **kwargs)
+            self.my_opt = my_opt
+
+        @property
+        def params(self):
+            return dict(super().params, my_opt=self.my_opt)
+
+    config.register_decoder(PvForwardingDecoder)
+    config.register_decoder(PvExtraOptionDecoder)
+
+
 def allowed_decoders(cls):
     from panqec.config import DECODERS
+    ensure_user_decoders()
     out = []
     for d in DECODERS_FOR:
         ac = DECODERS[d].allowed_codes
@@ -238,7 +275,26 @@ def check_spec(out, spec, ref, desc, mech, ref_dec_keys):
                       dict(desc, spec=spec))
         return None
     out.count('specs_parsed')
-    sims = list(batch._simulations)
+    real_sims = list(batch._simulations)
+    sims = []
+    for sim in real_sims:
+        if type(sim).__name__ == 'SplittingSimulation':
+            # one chain per requested rate: judged as one simulation per
+            # (code, noise, decoder parameters, rate) like the direct method
+            out.count('splitting_simulations_expanded')
+            if sorted(float(x) for x in sim.error_rates) != \
+                    sorted({float(d.error_rate) for d in sim.decoders}) or \
+                    len(sim.decoders) != len(sim.error_rates):
+                out.violation(f'{mech}/splitting/rates-vs-decoders',
+                              f'error_rates {list(sim.error_rates)} but '
+                              'decoders built at '
+                              f'{[d.error_rate for d in sim.decoders]}',
+                              dict(desc, spec=spec))
+            for d in sim.decoders:
+                sims.append(_PerRate(sim.code, sim.error_model, d,
+                                     d.error_rate))
+        else:
+            sims.append(sim)
     got = []
     for sim, keys in zip(sims, itertools.cycle([None])):
         got.append(sim)
@@ -290,7 +346,13 @@ def check_spec(out, spec, ref, desc, mech, ref_dec_keys):
                       f'{len(sims)} simulations built, {len(ref)} expected; '
                       f'unexpected: {unmatched_obs[:2]}; missing: {pool[:2]}',
                       dict(desc, spec=spec))
-    return sims
+    return [sm for sm in sims if not isinstance(sm, _PerRate)]
+
+
+class _PerRate:
+    def __init__(self, code, error_model, decoder, error_rate):
+        self.code, self.error_model = code, error_model
+        self.decoder, self.error_rate = decoder, error_rate
 
 
 def check_expand(out, ranges, ref, desc, mech):
@@ -413,6 +475,8 @@ def check_registries(out):
                               ('DECODERS', config.DECODERS, pd),
                               ('ERROR_MODELS', config.ERROR_MODELS, pe)):
         for key, val in list(reg.items()):
+            if key.startswith('Pv'):
+                continue        # this harness's own user-registered classes
             out.count('registry_keys_checked')
             desc = {'registry': regname, 'key': key}
             out.case(desc, True)
@@ -561,8 +625,17 @@ def run_specs(task, out):
                 desc = {'shape': shape, 'n_expected': len(ref),
                         'code': ranges['code']['name']}
                 check_expand(out, ranges, ref, desc, mech)
+                if rng.random() < 0.3:
+                    ranges['method'] = {'name': 'splitting',
+                                        'parameters': {'n_init_runs': 20}}
+                    desc['method'] = 'splitting'
+                    mech += '/splitting'
             elif shape == 'list':
                 parts = [gen_ranges(rng) for _ in range(int(rng.integers(2, 4)))]
+                for pt in parts:
+                    if rng.random() < 0.3:
+                        pt[0]['method'] = {'name': 'splitting',
+                                           'parameters': {'n_init_runs': 20}}
                 spec = {'ranges': [p[0] for p in parts]}
                 ref = [t for p in parts for t in p[1]]
                 dkeys = {k for t in ref for k, _ in t[4]}
